@@ -19,10 +19,10 @@ def main() -> int:
     ap.add_argument("--tier", default=os.environ.get("VERIF_TIER", "quick"), choices=["quick", "thorough"])
     ns = ap.parse_args()
     common.use_repo()
-    from .extras import endpoint, future_bridge, suite_traces, task_handle
+    from .extras import endpoint, future_bridge, stapled, suite_traces, task_handle
 
     rc = 0
-    for mod in (future_bridge, task_handle, endpoint, suite_traces):
+    for mod in (future_bridge, task_handle, stapled, endpoint, suite_traces):
         rep = mod.run(ns.tier, common.seed())
         os.makedirs(os.path.join(common.EVIDENCE_DIR, "extra"), exist_ok=True)
         with open(os.path.join(common.EVIDENCE_DIR, "extra", rep["name"] + ".json"), "w") as f:
